@@ -1,6 +1,6 @@
 ------------------------------ MODULE MC_Export ------------------------------
 (* Exports spec-defined spaces as ndjson (run by setup; see ../check). *)
-EXTENDS Gram, Text, Json, IOUtils, SequencesExt
+EXTENDS Gram, Text, ExpandFix, Json, IOUtils, SequencesExt
 
 What == IOEnv.VH_WHAT
 OutF == IOEnv.VH_OUT
@@ -19,11 +19,16 @@ Sig == CASE IOEnv.VH_SIG = "sig6" -> SIG6
          [] IOEnv.VH_SIG = "ab" -> <<"a", "b">>
 TextRecs == LET S == TextsUpTo(Sig, NN) IN [q \in 1..Len(S) |-> [t |-> S[q]]]
 
+TplRecs == LET S == TextsUpTo(TplAlphabet, NN) IN [q \in 1..Len(S) |-> [id |-> q, tpl |-> S[q]]]
+FixRecs == [q \in 1..Len(Fixtures) |-> [pat |-> Fixtures[q].pat, text |-> Fixtures[q].text]]
+
 VARIABLE done
 Init == done = FALSE
 Next == /\ ~done /\ done' = TRUE
         /\ CASE What = "pats"  -> /\ ndJsonSerialize(OutF, PatRecs) /\ PrintT(<<"EXPORTED", Len(PatRecs)>>)
              [] What = "inject" -> /\ ndJsonSerialize(OutF, InjRecs) /\ PrintT(<<"EXPORTED", Len(InjRecs)>>)
+             [] What = "templates" -> /\ ndJsonSerialize(OutF, TplRecs) /\ PrintT(<<"EXPORTED", Len(TplRecs)>>)
+             [] What = "fixtures" -> /\ ndJsonSerialize(OutF, FixRecs) /\ PrintT(<<"EXPORTED", Len(FixRecs)>>)
              [] What = "texts" -> /\ ndJsonSerialize(OutF, TextRecs) /\ PrintT(<<"EXPORTED", Len(TextRecs)>>)
 Spec == Init /\ [][Next]_done
 =============================================================================
